@@ -5,7 +5,7 @@ import asyncio
 import copy
 import signal
 
-from .. import drive, fingerprint, gen, observe
+from .. import drive, fingerprint, gen, observe, oracle
 from ..observe import (Event, Interpreter, Rec, SyncInterpreter, build_logic, create_machine, drain,
                        run_virtual, xs)
 from .common import Result, Watchdog, h, plan_summary, rng_for
@@ -39,6 +39,7 @@ ASSUMPTIONS = ["after delays are 100 s or more in this workload: timers never fi
                "required to be non-empty and samples are recorded"]
 NCHUNKS = 16
 LIBERR = xs.XStateMachineError
+DISAGREE = []          # (source, spelling, reference answer, library's static answer)
 REWRITES = ("t-string", "t-unlist", "always-as-empty-event", "cond", "act-unlist", "act-object",
             "delay-int", "initial-omitted", "target-respelled", "invoke-list", "entry-unlist")
 
@@ -112,8 +113,16 @@ def rewrite(plan, case, rng, base_machine):
         sp = gen.spellings(tr.source, tr.target)
         # only spellings the library's resolver maps to the same state id (matters when local
         # names are reused across parents: a bare name may then denote a nearer state)
-        ok = [s for k, s in sorted(sp.items())
-              if fingerprint.resolve_id(base_machine, mnodes[tr.source.id], s) == tr.target.id]
+        # (decided by the harness's own reference resolver, oracle.resolve_reference, which follows
+        #  the documented resolution order on the generator's tree - not by the library's)
+        ok = []
+        for k, s in sorted(sp.items()):
+            r = oracle.resolve_reference(case.tree, tr.source, s)
+            lib = fingerprint.resolve_id(base_machine, mnodes[tr.source.id], s)
+            if (r.id if r is not None else None) != (lib if not str(lib).startswith(("UNRESOLVED", "ERROR")) else None):
+                DISAGREE.append((tr.source.id, s, r.id if r is not None else None, lib))
+            if r is tr.target:
+                ok.append(s)
         if ok:
             new = rng.choice(ok)
             if new != t["target"]:
@@ -303,8 +312,17 @@ def metamorphic(res, spec, idx, tier):
     t0, events = _trace("sync", case, _clean(base_plan), names, nev, None, gtables, erng)
     ta0 = None
     for rep in range(2 if tier == "quick" else 4):
+        del DISAGREE[:]
         new_plan, done = rewrite(base_plan, case, rng, base_machine)
         new_plan = _clean(new_plan)
+        res.count("reference-resolver.spellings-checked", sum(done.values()) or 1)
+        if DISAGREE:
+            src, sp_, want_, lib_ = DISAGREE[0]
+            res.violation("C18:spelling-resolves-against-the-documented-order",
+                          "target %r written on %s: the documented resolution order gives %s, the library's "
+                          "resolver gives %s" % (sp_, src, want_, lib_),
+                          {"base": _clean(base_plan)}, case={"idx": idx})
+            return
         res.evaluations += 1
         for k, v in done.items():
             res.count("rewrites." + k, v)
@@ -626,6 +644,138 @@ def duplicate_ids(res, spec, idx, case, plan, names):
                           a.id, b.id), witness, case={"idx": idx})
 
 
+def _groupings(rng, segs):
+    """A random way of cutting `segs` into consecutive dotted keys."""
+    out, cur = [], [segs[0]]
+    for s_ in segs[1:]:
+        if rng.random() < 0.5:
+            cur.append(s_)
+        else:
+            out.append(".".join(cur))
+            cur = [s_]
+    out.append(".".join(cur))
+    return out
+
+
+def _insert_keypath(states, keys):
+    node = states
+    for i, k in enumerate(keys):
+        sd = node.setdefault(k, {})
+        if i < len(keys) - 1:
+            sd.setdefault("states", {})
+            sd.setdefault("initial", keys[i + 1])
+            node = sd["states"]
+
+
+def _all_ids(machine):
+    out = []
+    stack = [machine]
+    while stack:
+        n = stack.pop()
+        out.append(n.id)
+        stack.extend(n.states.values())
+    return out
+
+
+def dotted_key_collisions(res, spec, idx, case, plan, names):
+    """State keys containing '.' may build the same fully-qualified id as a nested path.  Two states
+    with one id are ambiguous: such a config must be refused; a dotted key that collides with nothing
+    must be accepted, and every accepted machine has pairwise distinct state ids."""
+    rng = rng_for(spec["seed"], ID, spec["chunk"], idx, "dotted")
+    hosts = [n for n in case.tree.order if n.kind in ("compound", "parallel") or n.parent is None]
+    hosts = [n for n in hosts if n.children]
+    if not hosts:
+        return
+    for rep in range(4):
+        cfg = gen.materialize(_clean(copy.deepcopy(plan)))
+
+        def sd_of(node):
+            sd = cfg
+            for x in list(reversed(list(node.ancestors(include_self=True))))[1:]:
+                sd = sd["states"][x.key]
+            return sd
+        host = rng.choice(hosts)
+        hsd = sd_of(host)
+        mode = ("existing-path", "two-groupings", "single-grouping", "two-groupings")[rep]
+        expect_reject = mode != "single-grouping"
+        if mode == "existing-path":
+            # a flat key spelling the path of an existing descendant (depth 2..3) of `host`
+            chain = []
+            cur = host
+            while cur.children and len(chain) < 3:
+                kids = [c for c in cur.children if c.kind != "history"]
+                if not kids:
+                    break
+                cur = rng.choice(kids)
+                chain.append(cur.key)
+            if len(chain) < 2:
+                continue
+            depth = rng.randint(2, len(chain))
+            flat = ".".join(chain[:depth])
+            new_states = {}
+            first = rng.random() < 0.5
+            if first:
+                new_states[flat] = {}
+            new_states.update(hsd["states"])
+            if not first:
+                new_states[flat] = {}
+            hsd["states"] = new_states
+            what = "flat key %r next to the nested path under %s (depth %d)" % (flat, host.id, depth)
+            res.count("dotted-keys.existing-path.depth%d" % depth)
+        else:
+            nseg = rng.randint(2, 4)
+            segs = ["zq%d" % k for k in range(nseg)]
+            g1 = _groupings(rng, segs)
+            if mode == "single-grouping":
+                if len(g1) == nseg:
+                    g1 = [".".join(segs[:2])] + segs[2:]
+                _insert_keypath(hsd["states"], g1)
+                what = "keys %r under %s" % (g1, host.id)
+                res.count("dotted-keys.single-grouping")
+            else:
+                g2 = _groupings(rng, segs)
+                tries = 0
+                while g2 == g1 and tries < 20:
+                    g2 = _groupings(rng, segs)
+                    tries += 1
+                if g2 == g1:
+                    continue
+                if rng.random() < 0.5:
+                    g1, g2 = g2, g1
+                _insert_keypath(hsd["states"], g1)
+                _insert_keypath(hsd["states"], g2)
+                what = "key paths %r and %r under %s" % (g1, g2, host.id)
+                div = next(i for i in range(min(len(g1), len(g2))) if g1[i] != g2[i])
+                shorter = min(g1[div], g2[div], key=len)
+                res.count("dotted-keys.two-groupings.prefix-%s" % ("dotted" if "." in shorter else "plain"))
+        res.evaluations += 1
+        res.hashes.add(h([idx, "dotted", mode, what]))
+        witness = {"what": what, "mode": mode, "config": _jsonable(cfg)}
+        rec = Rec()
+        try:
+            m = create_machine(cfg, logic=build_logic(case, rec, {}, names=names,
+                                                      services=observe.build_services(case, rec)))
+        except LIBERR as e:
+            res.count("dotted-keys.rejected")
+            if not expect_reject:
+                res.violation("C18:unambiguous-dotted-key-refused", "%s: %s" % (what, str(e)[:120]), witness,
+                              case={"idx": idx})
+            continue
+        except Exception as e:  # noqa: BLE001
+            res.violation("C18:raw-%s/create/dotted-key" % type(e).__name__, repr(e)[:160], witness,
+                          case={"idx": idx})
+            continue
+        res.count("dotted-keys.accepted")
+        ids = _all_ids(m)
+        dup = sorted(i for i in set(ids) if ids.count(i) > 1)
+        if dup:
+            res.violation("C18:two-states-share-one-id-accepted/%s" % mode,
+                          "%s: create_machine() accepted a config in which %d states share the id %s" % (
+                              what, ids.count(dup[0]), dup[0]), witness, case={"idx": idx})
+        elif expect_reject:
+            res.violation("C18:ambiguous-dotted-key-accepted/%s" % mode, what, witness, case={"idx": idx})
+
+
 def _jsonable(v):
     if isinstance(v, dict):
         return {str(k): _jsonable(x) for k, x in v.items()}
@@ -654,6 +804,7 @@ def run_chunk(spec):
             corruption(res, spec, idx, tier, *out, wd=wd)
         if out is not None:
             duplicate_ids(res, spec, idx, *out)
+            dotted_key_collisions(res, spec, idx, *out)
     wd.disarm()
     return res.to_json()
 
@@ -665,7 +816,9 @@ def quota(counters, tier):
             "corruption.runs.sync", "corruption.runs.async",
             "corruption.rejected-at-create", "corruption.accepted", "duplicate-id.configs.siblings",
             "duplicate-id.configs.different-branches", "duplicate-id.configs.ancestor-and-descendant",
-            "duplicate-id.rejected"]
+            "duplicate-id.rejected", "dotted-keys.existing-path.depth2", "dotted-keys.existing-path.depth3",
+            "dotted-keys.two-groupings.prefix-dotted", "dotted-keys.two-groupings.prefix-plain",
+            "dotted-keys.single-grouping", "dotted-keys.rejected", "dotted-keys.accepted"]
     need += ["rewrites." + k for k in REWRITES]
     for k in need:
         if counters.get(k, 0) == 0:
